@@ -239,3 +239,9 @@ M('c08-asgi-query-latin1', 'C08', 'R9', 'falcon/asgi/request.py',
   "query_string = scope['query_string'].decode()", "query_string = scope['query_string'].decode('latin1')", also=('C04', 'C06'))
 M('c08-parse-query-string-memoised', 'C08', 'R8', 'falcon/util/uri.py',
   "def parse_query_string(", "@functools.lru_cache(maxsize=512)\ndef parse_query_string(", also=('C19',))
+
+# ---- wave 4 (F17)
+M('c08-json-getter-passes-character-count', 'C08', 'R10', 'falcon/request.py',
+  """                BytesIO(param_bytes), MEDIA_JSON, len(param_bytes)
+""", """                BytesIO(param_bytes), MEDIA_JSON, len(param_value)
+""")
